@@ -317,9 +317,7 @@ pub fn make_module() -> KMap {
                     let value = value.clone();
 
                     let mut error = None;
-                    // An overridden equality operator could access the list, so filter a copy
-                    let mut values = l.data().clone();
-                    values.retain(|x| {
+                    let mut keep = |x: &mut KValue| {
                         if error.is_some() {
                             return true;
                         }
@@ -341,11 +339,24 @@ pub fn make_module() -> KMap {
                                 true
                             }
                         }
-                    });
+                    };
+
+                    if may_run_overridden_ops(&value) || l.data().iter().any(may_run_overridden_ops)
+                    {
+                        // An overridden equality operator could access the list,
+                        // so a copy of its data gets filtered
+                        let mut values = l.data().clone();
+                        values.retain(&mut keep);
+                        if error.is_none() {
+                            *l.data_mut() = values;
+                        }
+                    } else {
+                        l.data_mut().retain(&mut keep);
+                    }
+
                     if let Some(error) = error {
                         return error;
                     }
-                    *l.data_mut() = values;
                     l
                 }
                 (instance, args) => {
@@ -376,10 +387,15 @@ pub fn make_module() -> KMap {
             (KValue::List(l), []) => {
                 let l = l.clone();
 
-                // Overridden comparison operators could access the list, so sort a copy of its data
-                let mut data = l.data().clone();
-                sort_values(ctx.vm, &mut data)?;
-                *l.data_mut() = data;
+                if l.data().iter().any(may_run_overridden_ops) {
+                    // Overridden comparison operators could access the list,
+                    // so sort a copy of its data
+                    let mut data = l.data().clone();
+                    sort_values(ctx.vm, &mut data)?;
+                    *l.data_mut() = data;
+                } else {
+                    sort_values(ctx.vm, &mut l.data_mut())?;
+                }
 
                 Ok(KValue::List(l))
             }
@@ -455,6 +471,16 @@ pub fn make_module() -> KMap {
     });
 
     result
+}
+
+// Returns true if comparing the value could run an overridden operator (i.e. script code)
+fn may_run_overridden_ops(value: &KValue) -> bool {
+    match value {
+        KValue::Map(_) | KValue::Object(_) => true,
+        KValue::List(l) => l.data().iter().any(may_run_overridden_ops),
+        KValue::Tuple(t) => t.iter().any(may_run_overridden_ops),
+        _ => false,
+    }
 }
 
 fn is_list(value: &KValue) -> bool {
